@@ -220,10 +220,7 @@ def check_kernel(arch, isa, ris, flags=False):
     probs = []
     parser, kernel = dgfam.parsed_kernel(isa, [r.text for r in ris])
     sem.add_semantics(kernel)
-    g = drive.KernelDG.__new__(drive.KernelDG)
-    g.timed_out = False
-    g.kernel, g.parser, g.model, g.arch_sem = kernel, parser, mm, sem
-    g.dg = g.create_DG(kernel, flags)
+    g = drive.graph_only(kernel, parser, mm, sem, flags)
     idx = {k.line_number: i for i, k in enumerate(kernel)}
     got = {}
     for a, b, d in g.dg.edges(data=True):
